@@ -310,7 +310,13 @@ func (m *machine) runHarness(pkgPath, fname string, cfg *runConfig) *harnessResu
 					cuts[firstLine(res.end.msg)] = true
 				case "deadlock":
 					key := "deadlock"
-					if !vioSeen[key] {
+					carried := false
+					for _, v := range res.violations {
+						if v.Kind == "deadlock" {
+							carried = true
+						}
+					}
+					if !carried && !vioSeen[key] {
 						vioSeen[key] = true
 						hr.Violations = append(hr.Violations, violation{Label: "deadlock", Kind: "deadlock", Msg: res.end.msg, Decision: res.taken})
 					}
